@@ -14,12 +14,13 @@ func init() {
 	register("C03", "Decides structural necessary conditions of 'the precertificate route and the embedded-SCT route yield the identical log entry': "+
 		"(R1) the re-marshalled TBSCertificate type holds every variable-encoding part raw (RawValue / RawContent-led structs) and no string-bearing or dynamically typed field, so re-marshalling cannot re-encode names; "+
 		"(R2) removeExtension fails on unparsable input, trailing bytes, an absent extension and a second occurrence, and removes exactly the matched element ext[:i] ++ ext[i+1:] of the extension list, where i is the index whose OID matched the requested OID; "+
-		"(R3) every path from a modification of the TBS (extensions, issuer, an extension value) to asn1.Marshal passes through clearing the cached raw encoding; "+
-		"(R4) BuildPrecertTBS touches the TBS only when a pre-issuer is given: issuer ← preIssuer.RawIssuer; the authority key identifier is replaced IN PLACE by the raw value of the pre-issuer's AKI extension, removed when the pre-issuer has none, appended (non-critical) only when the precertificate had none — decision table over (precert has AKI) × (pre-issuer has AKI); a pre-issuer without the CT EKU is an error; RemoveSCTList / RemoveCTPoison target the SCT-list / poison OIDs; "+
+		"(R3) whenever asn1.Marshal of the parsed TBS executes after a modification of it (extensions, issuer, an extension value), the cached raw encoding has been cleared since asn1.Unmarshal last filled it — a typestate of the cache (empty / filled / stale) on every path, so the clear may come before or after the edits, in every arm or once for all; a clear that the next parse undoes, a clear on some paths only, a non-empty value put into Raw are reported; "+
+		"(R4) BuildPrecertTBS changes no content of the TBS unless a pre-issuer is given (emptying the cached encoding is not a change of content: the function may always re-encode what it parsed): issuer ← preIssuer.RawIssuer; the authority key identifier is replaced IN PLACE by the raw value of the pre-issuer's AKI extension, removed when the pre-issuer has none, appended (non-critical) only when the precertificate had none — decision table over (precert has AKI) × (pre-issuer has AKI); a pre-issuer without the CT EKU is an error; RemoveSCTList / RemoveCTPoison target the SCT-list / poison OIDs; "+
 		"(R5) the two precert-entry constructors agree field by field modulo the remover: IssuerKeyHash = SHA-256(final issuer SPKI), TBSCertificate = remover(chain[0].RawTBSCertificate), EntryType = precert, Timestamp = argument; "+
-		"(R6) ctutil.createLeaf: embedded ⇒ the SCT must be contained in the leaf, then MerkleTreeLeafForEmbeddedSCT(chain, sct.Timestamp); otherwise MerkleTreeLeafFromChain with the precert type iff the leaf is a precertificate; ContainsSCT compares the TLS encoding of the SCT with each list element; "+
+		"(R6) ctutil.createLeaf: embedded ⇒ the SCT must be contained in the leaf, and the leaf handed back is the one MerkleTreeLeafForEmbeddedSCT(chain, sct.Timestamp) yields: the result of that call, or an object that holds field by field what that function puts there for the inputs at hand — the same expression over the current chain / timestamp, or a value remembered from an earlier successful call of it that is served only when every input it depends on (read off that function's code, e.g. chain[0].RawTBSCertificate for the TBSCertificate, chain[1].RawSubjectPublicKeyInfo for the issuer key hash) compared equal to a private copy stored together with the value, only when the memory is filled, never for inputs that function refuses (chain shorter than 2), all under one lock without a gap between test and use; otherwise MerkleTreeLeafFromChain with the precert type iff the leaf is a precertificate; ContainsSCT compares the TLS encoding of the SCT with each list element; "+
 		"(R7) SCT-list writer and reader use the identical Go types for the list and for its ASN.1 OCTET STRING wrapping, with trailing-data checks on the reader side. "+
-		"NOT covered: byte identity over all TBSCertificates (the commutation law itself), behaviour of the ASN.1 re-marshal on non-canonical DER input.",
+		"(R11) a SEQUENCE OF / SET OF that is present decodes to a non-nil slice also when it is empty (every list the fork's decoder hands back without an error is made by reflect.MakeSlice), so the empty [3] wrapper that removing the only extension leaves behind survives the re-parse and re-marshal of the precertificate route as it survives the single stage of the embedded route; "+
+		"NOT covered: byte identity over all TBSCertificates (the commutation law itself), behaviour of the ASN.1 re-marshal on non-canonical DER input; that re-encoding an unmodified parsed TBS reproduces its bytes is assumed (R1, R11, C10.R3/R4 carry its decidable parts); a remembered embedded-route entry kept in anything but plain package-level cells under a sync mutex (a map, an LRU, atomics) is reported as undecided; determinism of x509.RemoveSCTList / sha256 is assumed.",
 		runC03)
 }
 
@@ -73,6 +74,9 @@ func runC03(r *Run) {
 	r.Rule("C03.R9")
 	c03SCTListReader(r)
 
+	r.Rule("C03.R11")
+	c03EmptyListPresent(r)
+
 	// both routes re-marshal the TBSCertificate through the ASN.1 fork: every byte that is not the
 	// removed extension survives only if the fork parses and encodes like the library it was forked
 	// from (validity times, lengths, string types) — rule set C10.R3
@@ -81,6 +85,7 @@ func runC03(r *Run) {
 			c10R3(r, li)
 		}
 	})
+	c03Debug(r)
 }
 
 // c03OID checks the value of an OID variable from its initialiser.
@@ -759,66 +764,10 @@ func c03IsRemoval(r *Run, v ssa.Value, ext string) (ssa.Value, bool) {
 	return nil, false
 }
 
-// c03RawCleared: typestate modified ⇒ Raw cleared before Marshal.
-func c03RawCleared(r *Run, fn *ssa.Function) {
-	name := short(FuncName(fn))
-	tbs := "new:x509.tbsCertificate#0"
-	var clears []*ssa.Store
-	var mods []*ssa.Store
-	eachInstr(fn, func(in ssa.Instruction) {
-		st, ok := in.(*ssa.Store)
-		if !ok {
-			return
-		}
-		d := r.D.D(st.Addr)
-		switch {
-		case d == "&("+tbs+".Raw)":
-			if r.D.D(st.Val) == "nil" {
-				clears = append(clears, st)
-			}
-		case strings.HasPrefix(d, "&("+tbs+"."):
-			mods = append(mods, st)
-		}
-	})
-	marsh := CallsTo(fn, "asn1.Marshal")
-	if len(marsh) != 1 || len(mods) == 0 {
-		r.Fail(name+":raw-cleared", r.FnPos(fn), fmt.Sprintf("undecided: %d Marshal calls, %d modifications of the TBS", len(marsh), len(mods)))
-		return
-	}
-	r.ExpectArg(marsh[0], name+":marshal.tbs", 0, "*"+tbs)
-	stop := map[*ssa.BasicBlock]bool{}
-	for _, c := range clears {
-		stop[c.Block()] = true
-	}
-	for _, m := range mods {
-		ok := true
-		if stop[m.Block()] {
-			// cleared in the same block: the clear must come after the modification
-			after := false
-			for _, in := range m.Block().Instrs {
-				if in == ssa.Instruction(m) {
-					after = true
-				}
-				if after {
-					for _, c := range clears {
-						if in == ssa.Instruction(c) {
-							ok = true
-							goto done
-						}
-					}
-				}
-			}
-			ok = false
-		} else {
-			reach := r.D.Walk(fn, Sigma{}, m.Block(), stop)
-			r.Valuations++
-			ok = !reach.Has(marsh[0])
-		}
-	done:
-		r.Check(name+":raw-cleared-after:"+strings.TrimSuffix(strings.TrimPrefix(r.D.D(m.Addr), "&("+tbs+"."), ")"), ok, r.Where(m),
-			"after this modification every path to asn1.Marshal clears tbs.Raw (otherwise the stale cached encoding is emitted)")
-	}
-}
+// c03RawCleared (C03.R3): whenever the re-marshal executes after a modification of the parsed
+// structure, its cached encoding has been cleared since it was last filled — decided as a
+// typestate of the cache (empty / filled / stale) on every path, see rules_t8c03.go.
+func c03RawCleared(r *Run, fn *ssa.Function) { c03RawFresh(r, fn) }
 
 func c03Build(r *Run, fn *ssa.Function) {
 	tbs := "new:x509.tbsCertificate#0"
@@ -834,10 +783,18 @@ func c03Build(r *Run, fn *ssa.Function) {
 	}
 	r.ErrorsGate(fn, "BuildPrecertTBS:errors", "x509.removeExtension", 1)
 	r.ErrorsGate(fn, "BuildPrecertTBS:errors", "asn1.*", 2)
-	// all modifications only with a pre-issuer
+	// no CONTENT of the TBS changes without a pre-issuer.  Emptying the cached encoding
+	// (`Raw = nil`) changes no content: it makes asn1.Marshal encode the fields it parsed instead
+	// of copying the bytes they were parsed from — the same bytes under the round-trip assumption
+	// recorded below (C03.R1, C03.R11, C10.R3/R4 carry its decidable parts).  Any other store
+	// into Raw is a modification.
+	r.Assume("re-marshalling a tbsCertificate that was just parsed from asn1.Marshal output and not modified reproduces those bytes (the pre-issuer route of BuildPrecertTBS relies on this in the unchanged tree already)")
 	var mods []ssa.Instruction
 	eachInstr(fn, func(in ssa.Instruction) {
 		if st, ok := in.(*ssa.Store); ok && strings.HasPrefix(r.D.D(st.Addr), "&("+tbs+".") {
+			if r.D.D(st.Addr) == "&("+tbs+".Raw)" && emptiesRaw(st.Val) {
+				return
+			}
 			mods = append(mods, st)
 		}
 	})
@@ -1135,24 +1092,44 @@ func c03CreateLeaf(r *Run) {
 		return
 	}
 	chain, sct, embedded := in["chain"], in["sct"], in["embedded"]
-	emb := CallsTo(fn, "ct.MerkleTreeLeafForEmbeddedSCT")
+	// the embedded route: whatever is handed back when `embedded` is set is the leaf
+	// MerkleTreeLeafForEmbeddedSCT(chain, sct.Timestamp) yields — its result, or an object holding
+	// field by field what it would put there (rules_t8c03.go); the producers are the markers of
+	// the gating obligations below
+	slow := r.Fn("ct.MerkleTreeLeafForEmbeddedSCT")
 	reg := CallsTo(fn, "ct.MerkleTreeLeafFromChain")
 	con := CallsTo(fn, "ctutil.ContainsSCT")
-	if len(emb) != 1 || len(reg) != 1 || len(con) != 1 {
-		r.Fail("createLeaf:routes", r.FnPos(fn), "undecided: expected one call of each leaf constructor and of ContainsSCT")
+	if slow == nil || len(reg) != 1 || len(con) != 1 {
+		r.Fail("createLeaf:routes", r.FnPos(fn), "undecided: expected one call of the regular leaf constructor and of ContainsSCT")
 		return
 	}
-	r.ExpectArg(emb[0], "createLeaf:embedded.chain", 0, chain)
-	r.ExpectArg(emb[0], "createLeaf:embedded.timestamp", 1, sct+".Timestamp")
 	r.ExpectArg(reg[0], "createLeaf:regular.chain", 0, chain)
 	r.ExpectArg(reg[0], "createLeaf:regular.timestamp", 2, sct+".Timestamp")
 	r.ExpectArg(con[0], "createLeaf:contains.cert", 0, chain+"[0]")
 	r.ExpectArg(con[0], "createLeaf:contains.sct", 1, sct)
 	contains := "ctutil.ContainsSCT(" + chain + "[0], " + sct + ")"
+	route := func(e string) Sigma {
+		return Sigma{embedded: e, contains + "#0": "T", "nil?" + contains + "#1": "nil", "nil?" + sct: "non", "ord(0, len(" + chain + "))": "<"}
+	}
+	emb, ok := c03EmbeddedRoute(r, fn, slow, chain, sct, route("T"))
+	if !ok {
+		return
+	}
+	if regCall, isCall := reg[0].(*ssa.Call); isCall {
+		c03LeafFromRegular(r, fn, regCall, route("F"))
+	}
+	anyEmb := func(reach *Reach) bool {
+		for _, m := range emb {
+			if reach.Has(m) {
+				return true
+			}
+		}
+		return false
+	}
 	for _, e := range []string{"T", "F"} {
-		reach := r.D.Walk(fn, Sigma{embedded: e, contains + "#0": "T", "nil?" + contains + "#1": "nil", "nil?" + sct: "non", "ord(0, len(" + chain + "))": "<"}, nil, nil)
+		reach := r.D.Walk(fn, route(e), nil, nil)
 		r.Valuations++
-		r.Check("createLeaf:route[embedded="+e+"]", reach.Has(emb[0]) == (e == "T") && reach.Has(reg[0]) == (e == "F"), r.FnPos(fn), fmt.Sprintf("embedded=%s ⇒ embedded route %v, regular route %v", e, reach.Has(emb[0]), reach.Has(reg[0])))
+		r.Check("createLeaf:route[embedded="+e+"]", anyEmb(reach) == (e == "T") && reach.Has(reg[0]) == (e == "F"), r.FnPos(fn), fmt.Sprintf("embedded=%s ⇒ embedded route %v, regular route %v", e, anyEmb(reach), reach.Has(reg[0])))
 	}
 	for name, s := range map[string]Sigma{
 		"embedded-needs-containment": {embedded: "T", contains + "#0": "F"},
@@ -1160,7 +1137,11 @@ func c03CreateLeaf(r *Run) {
 	} {
 		reach := r.D.Walk(fn, s, nil, nil)
 		r.Valuations++
-		r.Check("createLeaf:"+name, !reach.Has(emb[0]) && reach.Has(con[0]), r.Where(emb[0]), fmt.Sprintf("under %s the embedded-route leaf is not built", s))
+		where := r.FnPos(fn)
+		if len(emb) > 0 {
+			where = r.Where(emb[0])
+		}
+		r.Check("createLeaf:"+name, !anyEmb(reach) && reach.Has(con[0]), where, fmt.Sprintf("under %s the embedded-route leaf is not built", s))
 	}
 	for _, p := range []string{"T", "F"} {
 		got := r.ArgUnder(fn, reg[0], 1, Sigma{"(*x509.Certificate).IsPrecertificate(" + chain + "[0])": p, embedded: "F"})
